@@ -42,6 +42,8 @@ def fname(f):
         s += "-nst%d" % f["tickets13"]
     if f.get("dc"):
         s += "-dc" + f["dc"]
+    if f.get("range"):
+        s += "-range"
     return s
 
 
@@ -113,9 +115,11 @@ def build(f, cextra=None, sextra=None):
             skw["anon"] = True
     else:
         if f["hrr"]:
+            # the client's only share is for a group the server does not enable: HelloRetryRequest for secp256r1
             cs["keyShares"] = ["x25519"]
-            ss["eccCurves"] = ["secp256r1", "x25519"]
             cs["eccCurves"] = ["x25519", "secp256r1"]
+            ss["eccCurves"] = ["secp256r1"]
+            ss["keyShares"] = ["secp256r1"]
         ss["ticket_count"] = f["tickets13"]
     sc = SERVER_CRED.get(kex)
     if sc:
